@@ -122,6 +122,10 @@ structure State (Mod Content Sig Err : Type) where
   errors : List (Mod × List Err)
   /-- keys of `checked_modules` (read through membership) -/
   checked : List Mod
+  /-- `dep_graph`: the stored dependency graph, represented by the source map it was built from
+  (`DependencyGraph::new(&parsed_modules)`; its edges are `fwdEdges ck graph` / `revEdges ck graph`).
+  `rename_module` and `remove` query the graph stored by the PREVIOUS operation. -/
+  graph : Sources Mod Content
 
 /-- `ErrorSet::group_errors()[k]` -/
 def groupFor (es : List (Mod × Err)) (k : Mod) : List Err :=
@@ -172,15 +176,19 @@ def writeBatch (root : Mod) (ups : List (Mod × Content)) : List (Mod × Content
 def updateOne (ck : Checker Mod Content Sig Err) (s : State Mod Content Sig Err)
     (p : Mod × Content) : State Mod Content Sig Err :=
   { errors := erase s.errors p.1, globalCx := insert s.globalCx p.1 (ck.sig p.1 p.2),
-    sources := insert s.sources p.1 p.2, checked := s.checked }
+    sources := insert s.sources p.1 p.2, checked := s.checked, graph := s.graph }
+
+/-- `self.dep_graph = DependencyGraph::new(&self.parsed_modules)` -/
+def rebuildGraph (s : State Mod Content Sig Err) : State Mod Content Sig Err :=
+  { s with graph := s.sources }
 
 /-- `ServerState::update`: the recheck set comes from the **rebuilt** dependency graph. -/
 def update (ck : Checker Mod Content Sig Err) (s : State Mod Content Sig Err)
     (ups : List (Mod × Content)) : State Mod Content Sig Err :=
   let U := writeBatch ck.root ups
-  let s1 := U.foldl (updateOne ck) s
+  let s1 := rebuildGraph (U.foldl (updateOne ck) s)
   let pending := U.flatMap (fun p => tagged p.1 (ck.parseErrs p.2))
-  recheck ck s1 pending (affectedSet ck s1.sources (keys U))
+  recheck ck s1 pending (affectedSet ck s1.graph (keys U))
 
 /-- Loop body of `rename_module`; the second component is `syntax_errors` (by current name).
 The signature is **rebuilt** under the new name (fix baf612a). -/
@@ -195,7 +203,8 @@ def renameOne (ck : Checker Mod Content Sig Err)
        globalCx := insert (erase s.globalCx p.1) p.2 (ck.sig p.2 c),
        errors := erase (erase s.errors p.1) p.2,
        -- `self.checked_modules.remove(&old_mod_ref)` (executed for every pair)
-       checked := s.checked.filter (fun m => m ≠ p.1) },
+       checked := s.checked.filter (fun m => m ≠ p.1),
+       graph := s.graph },
       insert (erase acc.2 p.1) p.2 (ck.parseErrs c))
 
 /-- `renames` without the pairs that mention ROOT. -/
@@ -203,25 +212,25 @@ def renamePairs (root : Mod) (rens : List (Mod × Mod)) : List (Mod × Mod) :=
   rens.filter (fun p => p.1 ≠ root ∧ p.2 ≠ root)
 
 /-- `ServerState::rename_module`: the recheck set comes from the **old** dependency graph,
-dirty set = all old and new names. -/
+dirty set = all old and new names; the graph is rebuilt after the modules were moved. -/
 def rename (ck : Checker Mod Content Sig Err) (s : State Mod Content Sig Err)
     (rens : List (Mod × Mod)) : State Mod Content Sig Err :=
   let rs := renamePairs ck.root rens
-  let R := affectedSet ck s.sources (rs.flatMap (fun p => [p.1, p.2]))
+  let R := affectedSet ck s.graph (rs.flatMap (fun p => [p.1, p.2]))
   let acc := rs.foldl (renameOne ck) (s, [])
-  recheck ck acc.1 (acc.2.flatMap (fun p => tagged p.1 p.2)) R
+  recheck ck (rebuildGraph acc.1) (acc.2.flatMap (fun p => tagged p.1 p.2)) R
 
 /-- Loop body of `remove`. -/
 def removeOne (s : State Mod Content Sig Err) (m : Mod) : State Mod Content Sig Err :=
   { sources := erase s.sources m, globalCx := erase s.globalCx m, errors := erase s.errors m,
-    checked := s.checked.filter (fun k => k ≠ m) }
+    checked := s.checked.filter (fun k => k ≠ m), graph := s.graph }
 
 /-- `ServerState::remove`: recheck set from the **old** graph; ROOT ignored. -/
 def remove (ck : Checker Mod Content Sig Err) (s : State Mod Content Sig Err) (ms : List Mod) :
     State Mod Content Sig Err :=
   let ms' := ms.filter (fun m => m ≠ ck.root)
-  let R := affectedSet ck s.sources ms'
-  recheck ck (ms'.foldl removeOne s) [] R
+  let R := affectedSet ck s.graph ms'
+  recheck ck (rebuildGraph (ms'.foldl removeOne s)) [] R
 
 inductive Op (Mod Content : Type) where
   | update (ups : List (Mod × Content))
@@ -257,7 +266,7 @@ def fresh (ck : Checker Mod Content Sig Err) (S : Sources Mod Content) :
   let produced := freshProduced ck S
   { sources := S, globalCx := freshCx ck S,
     errors := overwrite [] produced (produced.map (·.1)),
-    checked := keys S }
+    checked := keys S, graph := S }
 
 /-! ## What "the current set of file contents" is, independently of `State` -/
 
